@@ -753,6 +753,9 @@ func (x *tr) call(e *ast.CallExpr) val {
 	case "math.Abs":
 		v := x.coerce(x.expr(e.Args[0]), "float64")
 		return val{coq: "(PrimFloat.abs " + v.coq + ")", typ: "float64"}
+	case "math.IsNaN":
+		v := x.coerce(x.expr(e.Args[0]), "float64")
+		return val{coq: "(negb (PrimFloat.eqb " + v.coq + " " + v.coq + "))", typ: "bool"}
 	}
 	fail("call %s (add a hint)", src(x.p.fset, e))
 	return val{}
